@@ -333,7 +333,9 @@ static void write_objective (
 			/* we put a least 4 terms on a line 
 			 * and then we stop after LINE_LEN or more characters 
 			 */
-			if ((line->total >= LINE_LEN) && (var >= 4))
+			/* (but not four terms of tens of thousands of characters each: the
+			 * line buffer is finite) */
+			if ((line->total >= LINE_LEN) && (var >= 4 || line->total >= 16 * LINE_LEN))
 			{
 				/* see whether there is another term 
 				 * if so append a '+' and print line */
